@@ -59,14 +59,22 @@ def cases(draw):
     sess = draw(st.one_of(SS.plain('ctrl'), SS.plain('altstack'), SS.plain('mixed'), SS.plain('arith'), SS.multi_script()))
     k = draw(st.integers(0, 12))
     toks = draw(st.lists(token(), min_size=1, max_size=8))
-    return (sess, k, toks)
+    # an earlier `exec` issued right before (no step in between) - often a failing one: what it leaves behind must not leak into the next
+    pre = draw(st.one_of(st.none(), st.none(), st.lists(token(), min_size=1, max_size=3),
+                         st.sampled_from([[('hex', b'\x01\x02\x03\x04\x05', ''), ('op', 'OP_1ADD', 0x8b)], [('op', 'OP_RETURN', 0x6a)], [('op', 'OP_2DROP', 0x6d), ('op', 'OP_2DROP', 0x6d), ('op', 'OP_2DROP', 0x6d)],
+                                          [('int', 2147483648), ('op', 'OP_NEGATE', 0x8f)], [('op', 'OP_FROMALTSTACK', 0x6c), ('op', 'OP_FROMALTSTACK', 0x6c)]])))
+    return (sess, k, toks, pre)
+
+
+def _tj(toks):
+    return [[t[0], (t[1].hex() if isinstance(t[1], bytes) else t[1])] + list(t[2:]) for t in toks]
 
 
 def case_json(case):
-    sess, k, toks = case
+    sess, k, toks, pre = case
     kw = {a: (v.hex() if isinstance(v, (bytes, bytearray)) else ([x.hex() for x in v] if isinstance(v, list) else v)) for a, v in sess['kw'].items()}
     return dict(session=kw, kind=sess['kind'], k=k, tokens=[A.render(t) for t in toks], compiled=A.compile_tokens(toks).hex(),
-                toks=[[t[0], (t[1].hex() if isinstance(t[1], bytes) else t[1])] + list(t[2:]) for t in toks])
+                toks=_tj(toks), pre=_tj(pre) if pre else None)
 
 
 def case_from_json(j):
@@ -78,8 +86,8 @@ def case_from_json(j):
             kw[a] = [bytes.fromhex(x) for x in v]
         else:
             kw[a] = v
-    toks = [tuple([t[0], bytes.fromhex(t[1]) if t[0] == 'hex' else t[1]] + t[2:]) for t in j['toks']]
-    return (dict(kw=kw, kind=j['kind']), j['k'], toks)
+    un = lambda L: [tuple([t[0], bytes.fromhex(t[1]) if t[0] == 'hex' else t[1]] + t[2:]) for t in L]
+    return (dict(kw=kw, kind=j['kind']), j['k'], un(j['toks']), un(j['pre']) if j.get('pre') else None)
 
 
 def vf_list(s):
@@ -93,11 +101,12 @@ def vf_list(s):
 
 
 def check_case(case, ctx, h=None):
-    sess, k, toks = case
+    sess, k, toks, pre = case
     h = h or harness()
     texts = [A.render(t) for t in toks]
     kw = dict(sess['kw'])
-    kw['cmds'] = ','.join(['s'] * k + ['e:' + '+'.join(t.encode().hex() for t in texts)])
+    ecmd = lambda T: 'e:' + '+'.join(A.render(t).encode().hex() for t in T)
+    kw['cmds'] = ','.join(['s'] * k + ([ecmd(pre)] if pre else []) + [ecmd(toks)])
     kw['finish'] = 1
     r = h.req(kvline('session', **kw))
     if 'timeout' in r:
@@ -113,9 +122,11 @@ def check_case(case, ctx, h=None):
         if not e['acc']:
             ctx.count('prefix-ended-early')
             return
-    pre = log[k - 1]['d'] if k else r['init']
-    ex = log[k]
+    npre = 1 if pre else 0
+    pre_state = log[k + npre - 1]['d'] if (k + npre) else r['init']
+    ex = log[k + npre]
     post = ex['d']
+    pre = pre_state
     flags = sess['kw']['flags']
     sv = sess['kw']['sv']
     # reference: execute the compiled tokens on the pre-state
@@ -152,6 +163,13 @@ def check_case(case, ctx, h=None):
             pass
         elif ex['err'] != exp_err:
             raise Violation(case, 'exec %r reports %r, the same operations in a script fail with %r' % (texts, ex['err'] or ex['exc'], exp_err), observed=ex['err'] or ex['exc'], expected=exp_err)
+        # the message the user actually sees (stderr of `exec`) names that error
+        msg = ex.get('msg', '')
+        if exp_err.startswith('exc:'):
+            if 'rror' not in msg:
+                raise Violation(case, 'exec %r failed with a number-format error but printed no error message' % texts, observed=msg)
+        elif ('Error: ' + exp_err) not in msg:
+            raise Violation(case, 'exec %r prints %r, the script error is %r' % (texts, msg.strip()[-120:], exp_err), observed=msg.strip()[-200:], expected='Error: ' + exp_err)
         return
     if not ex['acc']:
         raise Violation(case, 'exec %r failed (%s) but the same operations succeed as script operations on this state' % (texts, ex['err'] or ex['exc']), observed=ex['err'] or ex['exc'], expected='success')
